@@ -295,6 +295,7 @@ const (
 	KPanic                  // panic(...)
 	KAccess                 // read or write of a variable (only with EmitAccess)
 	KLoop                   // loop iteration boundary (Int = iteration number)
+	KHavoc                  // the trips of a conditional loop beyond the unroll bound, summarised (everything the body assigns is forgotten)
 	KFuncLitVal             // a function literal was evaluated as a value (escapes unless called)
 	KRange                  // range loop head (X = ranged expression)
 )
